@@ -58,7 +58,7 @@ Pow10(k) == IF k = 0 THEN 1 ELSE 10 * Pow10(k - 1)
 \* ------------------------------------------------------------------ expression values
 \* [st |-> "val" | "opaque" | "bad", a, b, ft, fn]:  a + b*pi;  ft = syntactic feature of strongest
 \* rank met while computing it (carried through gate-definition bindings), fn = function name if any.
-Rank(ft) == CASE ft = "plain" -> 0 [] ft = "sci" -> 1 [] ft = "neg" -> 2 [] ft = "pow" -> 3 [] ft = "par" -> 4 [] ft = "fn" -> 5
+Rank(ft) == CASE ft = "plain" -> 0 [] ft = "sci" -> 1 [] ft = "neg" -> 2 [] ft = "pow" -> 3 [] ft = "negpow" -> 4 [] ft = "par" -> 5 [] ft = "fn" -> 6
 Val(a, b, ft, fn) == [st |-> "val", a |-> a, b |-> b, ft |-> ft, fn |-> fn]
 Tag(v, ft, fn) == IF Rank(ft) > Rank(v.ft) THEN [v EXCEPT !.ft = ft, !.fn = fn] ELSE v
 Join(v, u) == IF Rank(u.ft) > Rank(v.ft) THEN [ft |-> u.ft, fn |-> u.fn] ELSE [ft |-> v.ft, fn |-> v.fn]
@@ -93,7 +93,10 @@ Eval(e, env) ==
     [] e.k = "neg" -> LET v == Eval(e.x, env) IN Tag([v EXCEPT !.a = RNeg(@), !.b = RNeg(@)], "neg", "")
     [] e.k = "fn"  -> LET v == Eval(e.x, env) IN
                       Tag([v EXCEPT !.st = IF @ = "bad" THEN "bad" ELSE "opaque", !.a = RZero, !.b = RZero], "fn", e.f)
-    [] e.k \in {"add", "sub", "mul", "div", "pow"} -> Bin(e.k, Eval(e.x, env), Eval(e.y, env))
+    [] e.k \in {"add", "sub", "mul", "div"} -> Bin(e.k, Eval(e.x, env), Eval(e.y, env))
+    [] e.k = "pow" -> LET v == Eval(e.x, env)  r == Bin("pow", v, Eval(e.y, env)) IN
+                      \* a formal parameter bound to a negative value, raised to a power: (-3)^2 = 9, not -(3^2)
+                      IF e.x.k = "var" /\ v.st = "val" /\ v.a[1] < 0 THEN Tag(r, "negpow", "") ELSE r
 
 \* grammar level of an expression: 1 exp (+ -), 2 term (* /), 3 unary (-x), 4 power (^), 5 primary
 Level(e) == CASE e.k \in {"add", "sub"} -> 1 [] e.k \in {"mul", "div"} -> 2 [] e.k = "neg" -> 3 [] e.k = "pow" -> 4 [] OTHER -> 5
@@ -113,7 +116,7 @@ WellFormedExpr(e, nvars) ==
 RoundDiv(n, d) == IF n >= 0 THEN (2 * n + d) \div (2 * d) ELSE -((2 * (-n) + d) \div (2 * d))
 Scaled(v) == RoundDiv(v.a[1] * 10000, v.a[2]) + RoundDiv(v.b[1] * 314159, 10 * v.b[2])
 FeatureName(ft, fn) == CASE ft = "plain" -> "plain-expression" [] ft = "sci" -> "scientific-notation"
-                         [] ft = "neg" -> "unary-minus" [] ft = "pow" -> "power"
+                         [] ft = "neg" -> "unary-minus" [] ft = "pow" -> "power" [] ft = "negpow" -> "power-of-negative-formal"
                          [] ft = "par" -> "parenthesised-expression" [] ft = "fn" -> "fn:" \o fn
 ParamOf(v) == [known |-> v.st = "val", bad |-> v.st = "bad", v |-> IF v.st = "val" THEN Scaled(v) ELSE 0,
                ft |-> FeatureName(v.ft, v.fn)]
